@@ -35,7 +35,7 @@ META = {
     "design_ref": "DESIGN.md §3 C04",
     "engines": ["sched", "backends"],
 }
-REQUIRED = ("tokens_enqueued", "tokens_claimed", "asks", "schedules", "schedules_b_inside_window", "soak_rounds", "process_rounds", "sequential_rounds", "rounds_with_a_neighbour_study_in_the_same_storage", "rounds_with_a_relative_sampler")
+REQUIRED = ("tokens_enqueued", "tokens_claimed", "asks", "schedules", "schedules_b_inside_window", "soak_rounds", "process_rounds", "sequential_rounds", "rounds_with_a_neighbour_study_in_the_same_storage", "rounds_with_a_relative_sampler", "interposed_claims_hook_fired")
 SHARDS = {"quick": 14, "thorough": 16}
 WATCHDOG_S = {"quick": 1200, "thorough": 5 * 3600}
 BUDGET_S = {"quick": 70, "thorough": 2400}
@@ -43,13 +43,23 @@ CONFIGS = ["inmemory", "journal_file", "sqlite", "cached_sqlite", "journal_redis
 
 
 class Arena:
-    def __init__(self, kind: str, n_consumers: int, tag: str, grpc_workers: int = 10, neighbour: bool = False, sampler: str = "random") -> None:
+    n_arenas = 0
+    pickled_consumers = False
+
+    def __init__(self, kind: str, n_consumers: int, tag: str, grpc_workers: int = 10, neighbour: bool = False, sampler: str = "random",
+                 hooked_pickled: bool = False) -> None:
         import optuna
 
         self.kind = kind
         self.store = backends.Store(kind, grpc_workers=grpc_workers) if kind.startswith("grpc:") else backends.Store(kind)
         self.name = f"c04-{tag}"
         first = self.store.client()
+        if hooked_pickled:
+            # journal file only: every worker's backend can run a callback between its append and its read-back, and the
+            # consumers are unpickled copies of the producer's storage, all driven from ONE thread
+            from vf.checks.c06 import HookedBackend
+
+            first._backend = HookedBackend(first._backend)
         self.neighbour = None
         if neighbour:
             # another study lives in the same storage and already has trials: in this study trial ids differ from trial numbers
@@ -67,8 +77,20 @@ class Arena:
             return optuna.samplers.RandomSampler(seed=seed)
 
         self.producer = optuna.create_study(storage=first, study_name=self.name, sampler=mk_sampler(0))
-        self.consumers = [optuna.load_study(storage=(self.store.client() if self.store.multi_client else self.producer._storage), study_name=self.name,
-                                            sampler=mk_sampler(i + 1)) for i in range(n_consumers)]
+        Arena.n_arenas += 1
+
+        def consumer_storage(i: int):
+            if not self.store.multi_client:
+                return self.producer._storage
+            if kind.startswith("journal_file") and (hooked_pickled or Arena.n_arenas % 2 == 0):
+                # every other journal arena: consumers received the storage as process pools hand it over - unpickled copies
+                import pickle
+
+                self.pickled_consumers = True
+                return pickle.loads(pickle.dumps(first))
+            return self.store.client()
+
+        self.consumers = [optuna.load_study(storage=consumer_storage(i), study_name=self.name, sampler=mk_sampler(i + 1)) for i in range(n_consumers)]
         self.tokens: dict[int, dict] = {}   # token -> {"how", "value", "number"}
         self.next_token = 1
         self.records: list[dict] = []
@@ -184,6 +206,38 @@ def judge(ctx: Ctx, ar: Arena, facts: dict, case: dict, expect_drained: bool) ->
 
 
 # ---------------------------------------------------------------------------------------- (a) sequential
+def interposed_claim_round(ctx: Ctx, rng, idx: int) -> None:
+    """Journal file, consumers = unpickled copies of one storage, one thread: consumer B's whole ask() (claim included) is
+    squeezed between consumer A's claim record and A's read-back.  Exactly one of them may receive the queued trial, and the
+    drain must hand out every token."""
+    ar = Arena("journal_file", 3, f"{ctx.shard[0]}-i{idx}", hooked_pickled=True)
+    try:
+        n_tok = rng.randint(1, 3)
+        for _ in range(n_tok):
+            ar.enqueue(rng.choice(["enqueue_trial", "add_trial"]), rng)
+        a, b = rng.sample(range(3), 2)
+        bk = ar.consumers[a]._storage._backend
+        fired = []
+
+        def hook():
+            fired.append(1)
+            ar.consume(b)
+
+        bk.after_append = hook        # one-shot: the first record A appends is its claim of the WAITING trial
+        ar.consume(a)
+        bk.after_append = None
+        ctx.count("interposed_claims")
+        if fired:
+            ctx.count("interposed_claims_hook_fired")
+        for j in range(n_tok + 3):
+            ar.consume(j % 3)
+        case = {"driver": "interposed_claim", "backend": "journal_file", "round": idx, "seed": ctx.seed, "tokens": n_tok, "pickled_consumers": ar.pickled_consumers}
+        ctx.case(case, bool(fired))
+        judge(ctx, ar, {"driver": "interposed_claim", "storage_calls_overlapped": True}, case, expect_drained=True)
+    finally:
+        ar.close()
+
+
 def sequential_round(ctx: Ctx, rng, kind: str, idx: int) -> None:
     nb, smp = rng.random() < 0.5, rng.choice(["random", "random", "tpe_multivariate", "qmc"])
     ar = Arena(kind, rng.randint(2, 4), f"{ctx.shard[0]}-s{idx}", neighbour=nb, sampler=smp)
@@ -401,6 +455,8 @@ def run(ctx: Ctx) -> None:
         kind = CONFIGS[ctx.shard[0] % len(CONFIGS)]
         for i in range(ctx.pick(6, 150)):
             sequential_round(ctx, ctx.rng("seq", ctx.shard[0], i), kind if i % 2 == 0 else CONFIGS[(ctx.shard[0] + i) % len(CONFIGS)], i)
+        for i in range(ctx.pick(4, 40)):
+            interposed_claim_round(ctx, ctx.rng("interposed", ctx.shard[0], i), i)
         soak_round(ctx, s, ctx.rng("soak", ctx.shard[0], 0), CONFIGS[ctx.shard[0] % len(CONFIGS)], 0)  # one soak before the budgeted part
         for nq in (1, 2):
             if ctx.out_of_time():
